@@ -15,7 +15,7 @@ GInit == Init /\ hist = <<>>
 
 GNext ==
   \/ (SDecideSpawn \/ SDecideStop \/ SChunkContinue \/ SChunkStop) /\ hist' = Append(hist, 0)
-  \/ \E w \in 1..MaxW : (WStart(w) \/ WStep(w)) /\ hist' = Append(hist, w)
+  \/ \E w \in 1..MaxW : (WStart(w) \/ WStep(w) \/ WPanic(w)) /\ hist' = Append(hist, w)
   \/ (SJoin \/ SSeq) /\ UNCHANGED hist
 
 GSpec == GInit /\ [][GNext]_<<vars, hist>>
